@@ -51,8 +51,14 @@ func checkC15(e *Env) {
 				for rep := 0; rep < reps; rep++ {
 					ent := r.Bytes(size)
 					if rep%3 == 1 {
-						for i := 0; i <= rep%5; i++ {
-							ent[i] = 0 // zero-leading: D1 used to misreport these
+						// zero-leading: D1 used to misreport these. The number of leading zero bytes
+						// runs over 1..15 (whole 32-bit groups included) across languages and sizes.
+						z := []int{1, 2, 4, 5, 8, 3, 6, 12, 9, 15}[(lang*5+si+rep/3)%10]
+						if z > size-1 {
+							z = size - 1
+						}
+						for i := 0; i < z; i++ {
+							ent[i] = 0
 						}
 					}
 					w := m.Words(ent, lang)
